@@ -11,6 +11,7 @@ def gen(root, facts, write_if_changed):
              "/- GENERATED on every run by tools/extract_decoders.py from /repo's source (go/extract decoders). Do not edit. -/",
              "namespace ErrModel.DecProg", "", "def decoders : List Decoder := ["]
     rows, unsafe, unknown = [], [], []
+    alt_rows = []
     for d in decs:
         ids = {}
         ops = []
@@ -29,7 +30,7 @@ def gen(root, facts, write_if_changed):
                 ops.append(".unknown")
                 unknown.append("%s.%s: %s at %s" % (d["pkg"], d["func"], o.get("what", "?"), o["pos"]))
         names = ", ".join("%d=%s" % (v, k) for k, v in sorted(ids.items(), key=lambda kv: kv[1]))
-        rows.append("  ⟨%s, %s, %s, %s, [%s]⟩%s" % (_s(d["pkg"]), _s(d["func"]), _s(d["key"]), _s(d["kind"]), ", ".join(ops),
+        (alt_rows if d.get("alt") else rows).append("  ⟨%s, %s, %s, %s, [%s]⟩%s" % (_s(d["pkg"]), _s(d["func"]), _s(d["key"]), _s(d["kind"]), ", ".join(ops),
                                                   ("   -- " + names) if names else ""))
     # commas must precede the trailing comments
     body = []
@@ -42,8 +43,22 @@ def gen(root, facts, write_if_changed):
                 r = r + ","
         body.append(r)
     lines += body
+    lines += ["]", "", "/-- additional paths of the decoders above (`if x, ok := payload.(*T); ok { … return … }`: the body is one",
+              "    path, what follows the statement another) -/", "def decoderPaths : List Decoder := ["]
+    abody = []
+    for i, r in enumerate(alt_rows):
+        if i < len(alt_rows) - 1:
+            if "   -- " in r:
+                a, b = r.split("   -- ", 1)
+                r = a + ",   -- " + b
+            else:
+                r = r + ","
+        abody.append(r)
+    lines += abody
     lines += ["]", "", "end ErrModel.DecProg", ""]
     write_if_changed(os.path.join(root, "lean", "ErrModel", "Generated", "DecoderFacts.lean"), "\n".join(lines))
-    return {"decoders": len(decs), "by_kind": {k: sum(1 for d in decs if d["kind"] == k) for k in ("leaf", "wrapper", "multi")},
+    # alternative paths are rows of the table (each must pass the checker) but not decoders of their own
+    lines_alt = [d for d in decs if d.get("alt")]
+    return {"decoders": len(decs) - len(lines_alt), "alternative_paths": len(lines_alt), "by_kind": {k: sum(1 for d in decs if d["kind"] == k) for k in ("leaf", "wrapper", "multi")},
             "ops": sum(len(d.get("ops") or []) for d in decs), "unchecked_assertions": unsafe, "unknown_constructs": unknown,
             "names": sorted("%s.%s" % (d["pkg"], d["func"]) for d in decs)}
